@@ -2,8 +2,8 @@
 from hist import *  # noqa
 from remerkleable.tree import NavigationError
 
-THEOREMS = ["C20_root", "C20_get", "C20_set", "C20_virtual_root_node", "C20_memo", "C20_view_start", "C20_related_roots", "C20_view_get", "C20_view_set", "C20_lengths", "C20_list_append", "C20_list_pop", "C20_bits_get", "C20_bits_set", "C20_bitlist_append", "C20_bitlist_pop", "C20_union_value", "C20_encoding", "C20_store_start", "C20_store_command", "C20_store_history", "C20_store_observed"]
-PARTIAL = ["view level: every mutating / reading view operation of the model (element and field get / set, lengths, append, pop, bit get / set, Bitlist append / pop, union selector / value) is proved to compute on the virtual tree exactly what it computes on the materialised tree — same data, same errors, related backings (C20_view_* ...), serialisation gives the same bytes for every type (C20_encoding), and at store level ANY command — hence any history through any held views, hooks included — gives the same results on a store of virtual-backed views as on the materialised store, with every held view keeping the same root and encoding (C20_store_command / _history / _observed); object export / iteration over virtual trees and the Python VirtualNode class itself are tied by the correspondence and the model-free comparison with the materialised tree", "a childless VirtualNode at the very top raises NavigationError on setter(expand=True) where a RootNode expands (C20_set requires the top node to have children; view backings always do)", "C20_memo counts successful fetches: a leaf virtual node whose get_left fails asks its source again on the next get_left unless is_leaf was asked first"]
+THEOREMS = ["C20_root", "C20_get", "C20_set", "C20_virtual_root_node", "C20_memo", "C20_view_start", "C20_related_roots", "C20_view_get", "C20_view_set", "C20_lengths", "C20_list_append", "C20_list_pop", "C20_bits_get", "C20_bits_set", "C20_bitlist_append", "C20_bitlist_pop", "C20_union_value", "C20_encoding", "C20_store_start", "C20_store_command", "C20_store_history", "C20_store_observed", "C20_node_iter", "C20_packed_iter", "C20_bit_iter", "C20_export"]
+PARTIAL = ["view level: every mutating / reading view operation of the model (element and field get / set, lengths, append, pop, bit get / set, Bitlist append / pop, union selector / value) is proved to compute on the virtual tree exactly what it computes on the materialised tree — same data, same errors, related backings (C20_view_* ...), serialisation gives the same bytes for every type (C20_encoding), and at store level ANY command — hence any history through any held views, hooks included — gives the same results on a store of virtual-backed views as on the materialised store, with every held view keeping the same root and encoding (C20_store_command / _history / _observed); the read-only iterators and object export over virtual trees are proved equal too (C20_*_iter, C20_export); the Python VirtualNode class itself (memoisation, the source protocol) are tied by the correspondence and the model-free comparison with the materialised tree", "a childless VirtualNode at the very top raises NavigationError on setter(expand=True) where a RootNode expands (C20_set requires the top node to have children; view backings always do)", "C20_memo counts successful fetches: a leaf virtual node whose get_left fails asks its source again on the next get_left unless is_leaf was asked first"]
 ASSUMPTIONS = ["consistent src m: the external source is a root-keyed store of the materialised tree and no leaf root equals a pair root"]
 COQ_IMPORTS = ["RM.Types", "RM.ModelStore", "RMR.RunC20"]
 COQ_FN = "RunC20.run"
